@@ -12,9 +12,11 @@
 EXTENDS MonBase
 VARIABLES l, st
 vars == <<l, st>>
-St0(t, i) == [tr |-> t, exp |-> EmptyFn, at |-> i]
+St0(t, i) == [tr |-> t, exp |-> EmptyFn, at |-> i, packing |-> "units"]
 Init == l = 1 /\ st = St0("none", 0)
-V(kind, s, more) == [prop |-> "C02", kind |-> kind, trace |-> s.tr, at |-> s.at] @@ more
+\* packing: "units" = every payload unit is self-contained (pointer filler is stuffing); "section-tail-behind-next-pointer-field" = a section
+\* ends behind the pointer_field of the packet in which the next one starts
+V(kind, s, more) == [prop |-> "C02", kind |-> kind, trace |-> s.tr, at |-> s.at, packing |-> s.packing] @@ more
 Q(s, pid) == IF pid \in DOMAIN s.exp THEN s.exp[pid] ELSE <<>>
 
 OnUnit(s, e) ==
@@ -46,7 +48,7 @@ OnEOF(s, i) ==
              first |-> LET p == CHOOSE p \in left : TRUE IN [pid |-> p, k |-> Head(s.exp[p]).k, unit |-> Head(s.exp[p]).unit, n |-> Len(s.exp[p])]]))
 
 Step(s, e, i) ==
-  CASE e.ev = "reset" -> St0(e.t, i)
+  CASE e.ev = "reset" -> [St0(e.t, i) EXCEPT !.packing = Get(e, "packing", "units")]
     [] e.ev = "unit" -> OnUnit(s, e)
     [] e.ev = "deliver" -> OnDeliver(s, e, i)
     [] e.ev = "derr" -> Rep([s EXCEPT !.at = i], V(IF e.panic THEN "panic" ELSE "error-on-well-formed-stream", [s EXCEPT !.at = i], [msg |-> e.msg]))
